@@ -9,48 +9,51 @@
   The `evm` engine compares, on every run, the adapter with `Impl` and go-ethereum with `Ref`
   call by call, and the adapter with go-ethereum directly (the monitor).
 
-  FULL STATEMENT (DESIGN §6 C16), which is FALSE of the code as written:
+  FULL STATEMENT (DESIGN §6 C16), which is still FALSE of the code in one respect:
 
       theorem impl_refines_ref (c : Cfg) (ops : List Op) :
           Impl.run c (Impl.init Store.empty) ops = Ref.run c (Ref.init []) ops
       theorem any_client_same_result (c : Cfg) (cl : Client α) :
           (cl.runImpl c (Impl.init Store.empty)).1 = (cl.runRef c (Ref.init [])).1
 
-  Five mechanisms of the adapter break it; each is replayed on the real code by the monitor of the
-  `evm` engine (signatures in parentheses, listed in known_findings.json) and proved below as a
-  concrete counterexample from the empty state:
-    1. `deleteStateObject` → `RemoveAccount` deletes `keeper_<a>` only: the balance record of a
-       self-destructed account survives and `legacyFix` turns it back into an account (S8,
-       `deleted-account-keeps-balance`)                                   — `selfdestruct_keeps_balance`
-    2. storage records are never deleted and `createObject` does not hide them: an account created
-       again at the address reads the old slots (S8, `recreated-account-keeps-storage`)
-                                        — `recreated_account_keeps_storage`, `createAccount_keeps_storage`
-    3. `journal.deleteDirty` removes a slice element without re-indexing `addressToJournalIndex`:
-       later journal operations index out of range (Go panic) or count on the wrong account
-       (`journal-dirty-index-stale`)                                      — `stale_dirty_index_panics`
-    4. `balanceChange.revert` / `suicideChange.revert` go through the journaled `SetBalance`, so a
-       reverted balance change leaves the account dirty and `Finalise(true)` deletes it when empty
-       (`reverted-balance-change-deletes-empty-account`)            — `reverted_transfer_deletes_empty_account`
-    5. a contract code equal to the store's TOMBSTONE marker cannot be written (KF-C09-1,
-       `tombstone-literal-code`)                                          — `tombstone_code_is_lost`
+  History.  Five mechanisms of the adapter broke it when this slice was written; four were repaired
+  in /repo after the monitor replayed them (da864f3 + c90a103 balance record of a removed account,
+  f45414e `journal.deleteDirty` re-indexes, d411c44 undoing a balance change does not journal,
+  b55dd24 + 078c4d3 a code equal to the store's deletion marker is refused and `Finalise` fails).
+  Their former counterexamples are regression theorems below (`regress_*`: Impl = Ref).
+
+  What is left (known finding KF-C16-2, signature `recreated-account-keeps-storage`): storage
+  records are never deleted and `createObject` does not hide them, so an account created again at
+  an address (CREATE2 after SELFDESTRUCT, or `CreateAccount` over a live account) reads the old
+  slots — `recreated_account_keeps_storage`, `createAccount_keeps_storage`.
 
   What IS proved (`impl_refines_ref_partial`, `any_client_same_result_partial`): for EVERY call
-  sequence / client, from every sane starting state, as long as the run stays inside `Impl.safeRun`
-  — a decidable predicate on the adapter's own state (`Impl.guard`, `Impl.legitPanic`,
+  sequence / client, from every sane starting state, as long as the run stays inside
+  `Impl.safeRun` — a decidable predicate on the adapter's own state (`Impl.guard`,
   `Impl.finaliseGuard` in Model.lean) — the adapter returns what the reference returns, call by
-  call, including arbitrary nesting of Snapshot / RevertToSnapshot and Finalise between transactions.
-  The predicate excludes: the five situations above (1: a deleted account with a non-zero balance
-  record; 2: a deleted account or a CreateAccount target with non-zero storage records; 3: an account
-  with a live journal entry missing from `dirties` at Finalise, or a journal panic; 4:
-  `Finalise(false)`, the only way the EVM path could leave an empty account in the records;
-  5: writing out a code equal to the marker); two modelling restrictions (the RIPEMD touch
-  exception, and Prepare / Reset inside a transaction: both are in the models and compared with
-  go-ethereum by the correspondence run); and two well-formedness conditions that hold on every
-  state the engines have produced but are checked here rather than proved invariant (every dirty
-  slot has its origin cached when `commitState` runs; an access-list slot is never listed without
-  its address).  The driver evaluates the predicate on every correspondence line and reports which
-  part fails first (`guard-first-failure:*` in the evidence): only the five mechanisms, the RIPEMD
-  touch, `Finalise(false)` and non-sane starting records ever do.
+  call, including arbitrary nesting of Snapshot / RevertToSnapshot and Finalise between
+  transactions; in particular the adapter panics exactly where the reference does
+  (`panics_are_shared`: SubRefund below zero, an invalid revision, SubBalance beyond the balance)
+  — no journal operation, no undo of a journal entry and no dirty-counter update can fail.
+  The predicate excludes:
+    * KF-C16-2: `Finalise` deleting an account that has non-zero storage records, `CreateAccount`
+      over a live account that has some;
+    * writing out a code equal to the deletion marker (3 bytes e2 9b bc): the store refuses it and
+      `Finalise` fails the transaction (`marker_code_fails_finalise`), for which the reference
+      semantics has no counterpart — a documented exclusion of the input class, not a divergence
+      of what is read back;
+    * `Finalise(false)` (would leave empty accounts in the records; never called by the code);
+    * two modelling restrictions: the RIPEMD touch exception, and Prepare / Reset inside a
+      transaction (both are in the models and compared with go-ethereum by the correspondence run);
+    Nothing else.  Three conditions that were guards while the journal bookkeeping was broken or
+    before they were proved are invariants of every reachable state now (Lemmas.lean): `JOK`
+    (every journal entry can be undone: its account / log is there when its turn comes), `JCnt`
+    (the dirty counters count the live journal entries, so `Finalise` writes out every account
+    that has one), `OOK` (every dirty slot has its original value cached when `commitState` runs,
+    followed through `createObject` / `resetObject` entries); and the access list is abstracted
+    to counts, so a slot listed without its address could not make the two differ.
+  The driver evaluates the predicate on every correspondence line and reports which part fails
+  first (`guard-first-failure:*` in the evidence).
 -/
 import OLP.Evm.LemmasStart
 
@@ -121,7 +124,8 @@ theorem sim_init (st : Store) (w0 : List (Addr × RAcct)) (hs : StoreOK st) (h0 
   have hv : ∀ a, (Impl.init st).view a = st.view a := by intro a; simp [Impl.view, Impl.init, alookup]
   refine ⟨⟨by intro a o ha; simp [Impl.init, alookup] at ha, by simp [Impl.init, akeys], hs⟩,
     by intro e he; simp [Impl.init, Journal.new] at he, ?_, rfl, rfl, by intro a; simp [Ref.init, Impl.init, Journal.new],
-    ?_, h0.1, trivial, by intro x hx; simp [Impl.init] at hx, by simp [Impl.init], by simp [Impl.init], rfl⟩
+    ?_, h0.1, trivial, by intro x hx; simp [Impl.init] at hx, by simp [Impl.init], by simp [Impl.init], rfl,
+    by simp [Impl.init, Journal.new, JOK], JCnt.new, by simp [Impl.init, Journal.new, OOK]⟩
   · simp only [absI, absR, AW.mk.injEq]
     refine ⟨?_, rfl, ?_, rfl, rfl, rfl⟩
     · funext a; rw [hv a]; exact h0.2 a
@@ -137,6 +141,11 @@ theorem sim_init (st : Store) (w0 : List (Addr × RAcct)) (hs : StoreOK st) (h0 
 theorem step_refines (c : Cfg) (s : Impl) (r : Ref) (h : Sim s r) (op : Op) (hsafe : s.safeStep c op = true) :
     (s.step c op).2 = (r.step c op).2 ∧ ((s.step c op).2 ≠ .panic → Sim (s.step c op).1 (r.step c op).1) :=
   sim_step c h op hsafe
+
+/-- the adapter panics exactly where the reference does -/
+theorem panics_are_shared (c : Cfg) (s : Impl) (r : Ref) (h : Sim s r) (op : Op) (hsafe : s.safeStep c op = true) :
+    (s.step c op).2 = .panic ↔ (r.step c op).2 = .panic := by
+  rw [(sim_step c h op hsafe).1]
 
 theorem run_refines (c : Cfg) : ∀ (ops : List Op) (s : Impl) (r : Ref), Sim s r → s.safeRun c ops = true →
     Impl.run c s ops = Ref.run c r ops
@@ -226,56 +235,59 @@ theorem ref_finalise_promotes (r : Ref) (b : Bool) (a : Addr) (x : RAcct)
   simp only [Prod.mk.injEq] at har
   rw [← har.2]
 
-/-! ## 5. Counterexamples to the full statement (each replayed on the implementation by the monitor) -/
+/-! ## 5. What is left of the full statement, and regressions of what was repaired -/
 
 def cfg : Cfg := { tomb := 99, ripemd := 3 }
 def start : Impl := Impl.init Store.empty
 def rstart : Ref := Ref.init []
 
-/-- 1. the balance record of a self-destructed account survives: after the transaction the account
-    is back with its old balance (the beneficiary has been paid the same amount) -/
-theorem selfdestruct_keeps_balance :
-    let ops := [Op.addBalance 1 7, .finalise true, .suicide 1, .finalise true, .getBalance 1, .exist 1]
-    Impl.run cfg start ops = [.unit, .unit, .bool true, .unit, .nat 7, .bool true] ∧
-    Ref.run cfg rstart ops = [.unit, .unit, .bool true, .unit, .nat 0, .bool false] ∧
-    start.safeRun cfg ops = false := by decide
-
-/-- 2a. storage records survive the deletion of their account: created again, it reads them -/
+/-- KF-C16-2a. storage records survive the deletion of their account: created again, it reads them -/
 theorem recreated_account_keeps_storage :
     let ops := [Op.setNonce 1 1, .setState 1 0 5, .finalise true, .suicide 1, .finalise true, .setNonce 1 1, .getState 1 0]
     Impl.run cfg start ops = [.unit, .unit, .unit, .bool true, .unit, .unit, .nat 5] ∧
     Ref.run cfg rstart ops = [.unit, .unit, .unit, .bool true, .unit, .unit, .nat 0] ∧
     start.safeRun cfg ops = false := by decide
 
-/-- 2b. `CreateAccount` over a live account keeps its storage records readable -/
+/-- KF-C16-2b. `CreateAccount` over a live account keeps its storage records readable -/
 theorem createAccount_keeps_storage :
     let ops := [Op.setNonce 1 1, .setState 1 0 5, .finalise true, .createAccount 1, .getState 1 0, .getCommittedState 1 0]
     Impl.run cfg start ops = [.unit, .unit, .unit, .unit, .nat 5, .nat 5] ∧
     Ref.run cfg rstart ops = [.unit, .unit, .unit, .unit, .nat 0, .nat 0] ∧
     start.safeRun cfg ops = false := by decide
 
-/-- 3. `deleteDirty` leaves stale positions in `addressToJournalIndex`: the next journal entry for
-    the account behind the deleted one indexes out of range (a Go panic inside DeliverTx) -/
-theorem stale_dirty_index_panics :
-    let ops := [Op.snapshot, .setNonce 1 3, .addBalance 2 1000, .revertToSnapshot 0, .setState 2 1 5]
-    Impl.run cfg start ops = [.nat 0, .unit, .unit, .unit, .panic] ∧
-    Ref.run cfg rstart ops = [.nat 0, .unit, .unit, .unit, .unit] ∧
+/-- the excluded input class: a code equal to the deletion marker makes `Finalise` fail (the
+    reference has no such error); nothing is read back differently before that -/
+theorem marker_code_fails_finalise :
+    let ops := [Op.setCode 1 99, .getCode 1, .finalise true, .getCode 1]
+    Impl.run cfg start ops = [.unit, .code 99, .panic] ∧
+    Ref.run cfg rstart ops = [.unit, .code 99, .unit, .code 99] ∧
     start.safeRun cfg ops = false := by decide
 
-/-- 4. a reverted balance change leaves the account dirty: an empty account that is in the records
-    (only possible after `Finalise(false)` or from outside the EVM) is deleted by the next Finalise -/
-theorem reverted_transfer_deletes_empty_account :
+/-- repaired (da864f3, c90a103): a self-destructed account is gone with its balance record -/
+theorem regress_selfdestruct_balance :
+    let ops := [Op.addBalance 1 7, .finalise true, .suicide 1, .finalise true, .getBalance 1, .exist 1]
+    Impl.run cfg start ops = [.unit, .unit, .bool true, .unit, .nat 0, .bool false] ∧
+    Ref.run cfg rstart ops = Impl.run cfg start ops ∧ start.safeRun cfg ops = true := by decide
+
+/-- repaired (c90a103): what is paid to a contract after its self-destruct is burnt with it -/
+theorem regress_paid_after_selfdestruct :
+    let ops := [Op.addBalance 1 7, .finalise true, .suicide 1, .addBalance 1 5, .getBalance 1, .finalise true, .getBalance 1, .exist 1]
+    Impl.run cfg start ops = [.unit, .unit, .bool true, .unit, .nat 5, .unit, .nat 0, .bool false] ∧
+    Ref.run cfg rstart ops = Impl.run cfg start ops ∧ start.safeRun cfg ops = true := by decide
+
+/-- repaired (f45414e): the dirty index follows the removal of an entry -/
+theorem regress_dirty_index :
+    let ops := [Op.snapshot, .setNonce 1 3, .addBalance 2 1000, .revertToSnapshot 0, .setState 2 1 5, .setNonce 2 1,
+                .finalise true, .getState 2 1, .exist 1]
+    Impl.run cfg start ops = [.nat 0, .unit, .unit, .unit, .unit, .unit, .unit, .nat 5, .bool false] ∧
+    Ref.run cfg rstart ops = Impl.run cfg start ops ∧ start.safeRun cfg ops = true := by decide
+
+/-- repaired (d411c44): a reverted balance change does not leave the account dirty (the empty
+    stored account is made with `Finalise(false)`, which is outside the guard, yet both agree) -/
+theorem regress_reverted_transfer_keeps_empty_account :
     let ops := [Op.createAccount 1, .finalise false, .snapshot, .addBalance 1 5, .revertToSnapshot 0, .finalise true, .exist 1]
-    Impl.run cfg start ops = [.unit, .unit, .nat 0, .unit, .unit, .unit, .bool false] ∧
-    Ref.run cfg rstart ops = [.unit, .unit, .nat 0, .unit, .unit, .unit, .bool true] ∧
-    start.safeRun cfg ops = false := by decide
-
-/-- 5. a code equal to the TOMBSTONE marker is not stored (KF-C09-1 seen through the adapter) -/
-theorem tombstone_code_is_lost :
-    let ops := [Op.setCode 1 99, .getCode 1, .finalise true, .getCode 1, .getCodeHash 1]
-    Impl.run cfg start ops = [.unit, .code 99, .unit, .code 0, .hash (some 99)] ∧
-    Ref.run cfg rstart ops = [.unit, .code 99, .unit, .code 99, .hash (some 99)] ∧
-    start.safeRun cfg ops = false := by decide
+    Impl.run cfg start ops = [.unit, .unit, .nat 0, .unit, .unit, .unit, .bool true] ∧
+    Ref.run cfg rstart ops = Impl.run cfg start ops := by decide
 
 /-! ## 6. Non-vacuity: the guards are met by non-trivial runs -/
 
